@@ -242,3 +242,105 @@ def add_inline_pair(rng, g):
     host.alts.append(Alt(items, action="named", fallible=rng.random() < 0.3))
     gen._assign_pids(g)
     return g
+
+
+def gen_nullable_tails(rng, actions=True):
+    """productions whose tail is a user-written nullable nonterminal, inside hosts that are
+    followed by different terminals in different places (and inside left-recursive lists): the
+    lookahead of the host reaches the items of the tail-less prefix only through the nullable
+    tail, and arrives in several instalments during LR(1) closure."""
+    letters = list("abcdefghijklmnopqrstuvw")
+    rng.shuffle(letters)
+    take = lambda: letters.pop()
+    rules = {}
+    # nullable tails
+    ntails = rng.randint(1, 3)
+    tails = []
+    for i in range(ntails):
+        n = "T%d" % i
+        alts = [[]]
+        alts.append([take()])
+        if rng.random() < 0.3:
+            alts.append([take(), take()])
+        rng.shuffle(alts)
+        rules[n] = alts
+        tails.append(n)
+    # core C
+    c = take()
+    rules["C"] = [[c]] if rng.random() < 0.6 else [[c], ["C", take()]]
+    # host B = C tail+  (1..2 nullable tails)
+    k = rng.randint(1, min(2, ntails))
+    rules["B"] = [["C"] + rng.sample(tails, k)]
+    if rng.random() < 0.3:
+        rules["B"].append([take(), "B"])
+    shape = rng.random()
+    if shape < 0.5:
+        # B followed by different terminals in different alternatives
+        fol = [take() for _ in range(rng.randint(2, 3))]
+        rules["S"] = [["B", f] for f in fol]
+        if rng.random() < 0.4:
+            rules["S"].append([take(), "B", rng.choice(fol)])
+        if rng.random() < 0.3:
+            rules["S"].append(["B"])
+    elif shape < 0.85:
+        # left-recursive list of hosts: the follower of B is FIRST(B) and end of input
+        rules["S"] = [["S", "B"], ["B"]]
+        if rng.random() < 0.4:
+            rules["S"] = [["S", take(), "B"], ["S", "B"], ["B"]]
+    else:
+        rules["S"] = [["B", "S"], []] if rng.random() < 0.5 else [[take(), "S", "B"], ["B"]]
+    order = ["S", "B", "C"] + tails
+    allnames = set(rules)
+    terms = sorted({s for alts in rules.values() for a in alts for s in a if s not in allnames})
+    nts = []
+    for n in order:
+        uniq = []
+        for a in rules[n]:
+            if a not in uniq:
+                uniq.append(a)
+        nts.append(NT(n, [Alt([Item(T(x) if x in terms else N(x)) for x in a]) for a in uniq], pub=(n == "S")))
+    g = Grammar(nts, terms)
+    mode = {n.name: (rng.choice(["user", "user", "unit"]) if actions else "unit") for n in g.nts}
+    gen._decorate(rng, g, mode, 0.0, 0.0)
+    gen._assign_pids(g)
+    g.mode = mode
+    return g
+
+
+def add_same_action_twins(rng, g):
+    """two alternatives with the very same action text and symbol types but the bound symbols
+    in different positions (user action sharing one production id, and default `<>` selections)"""
+    p, q = "p", "q"
+    for t in (p, q):
+        if t not in g.terms:
+            g.terms.append(t)
+    base = [t for t in g.terms if t not in (p, q)]
+    hosts = [nt for nt in g.nts if nt.ty == "V" and not nt.params]
+    if hosts and rng.random() < 0.8:
+        host = rng.choice(hosts)
+        x, y, m = rng.choice(base), rng.choice(base), rng.choice(base)
+        a1 = Alt([Item(T(p)), Item(T(x), ("name", "a", False)), Item(T(m)), Item(T(y), ("name", "b", False))], action="named")
+        a2 = Alt([Item(T(q)), Item(T(x), ("name", "b", False)), Item(T(m)), Item(T(y), ("name", "a", False))], action="named")
+        a1.order = ["a", "b"]
+        a2.order = ["a", "b"]
+        if rng.random() < 0.5:
+            a1.fallible = a2.fallible = False
+        host.alts += [a1, a2]
+        gen._assign_pids(g)
+        a2.pid = a1.pid          # identical action text: the same production id on purpose
+    if rng.random() < 0.7:
+        # default actions: `<>` selecting different positions, same types
+        x, y = rng.choice(base), rng.choice(base)
+        name = "Pk"
+        if not g.nt(name):
+            alts = [Alt([Item(T(p)), Item(T(x), ("sel",)), Item(T(y))]), Alt([Item(T(q)), Item(T(x)), Item(T(y), ("sel",))])]
+            if rng.random() < 0.5:
+                alts.reverse()
+            g.nts.append(NT(name, alts, pub=True))
+            pid_keep = {id(a): a.pid for nt in g.nts for a in nt.alts}
+            gen._assign_pids(g)
+            for nt in g.nts:
+                for a in nt.alts:
+                    if getattr(a, "order", None) and id(a) in pid_keep and pid_keep[id(a)] is not None:
+                        a.pid = pid_keep[id(a)]
+    return g
